@@ -6,6 +6,7 @@ mod fes;
 mod gates;
 mod net;
 mod props;
+mod repro;
 mod rt;
 mod tree;
 
@@ -25,6 +26,7 @@ fn main() {
         ("props", "slots") => props::replay_slots(&args[2..]),
         ("body", "replay") => body::replay(&args[2..]),
         ("asyncm", "replay") => asyncm::replay(&args[2..]),
+        ("repro", "run") => repro::run(&args[2..]),
         ("tree", "replay") => tree::replay(&args[2..]),
         ("net", "replay") => net::replay(&args[2..]),
         ("gates", "replay") => gates::replay(&args[2..]),
